@@ -6,6 +6,7 @@ import (
 	"time"
 
 	"verifsim/kernel"
+	"verifsim/peer"
 )
 
 // ---------------------------------------------------------------------------------------------
@@ -39,6 +40,18 @@ func genC06(seed uint64, run int, tier string) Scenario {
 			OpSpec{Kind: "idle", IdleUS: sc.ReadDelayUS*int64(between(r, 10, 30)) + int64(sc.Net.LatMax/time.Microsecond)*4},
 			OpSpec{Kind: "getprompt"})
 		sc.Class += "/unread"
+	}
+	if sc.Driver == "network" && r.IntN(4) == 0 {
+		// the driver comes from a platform definition whose network-on-open sequence logs in at a
+		// gate, acquires the default level and sends a command: an exchange during Open, so loss
+		// points inside it are "during open"
+		sc.PlatLogin = genSecret(r, "lg-")
+		gate := &peer.Mode{Name: "gate", Prompt: "Password: ", NoEcho: true, Cmds: map[string]*peer.Reply{sc.PlatLogin: {Next: sc.Dev.Start}}}
+		gate.Default = &peer.Reply{Out: []peer.Tok{{S: "% Login invalid"}}, Next: "gate"}
+		gate.Empty = gate.Default
+		sc.Dev.Modes = append(sc.Dev.Modes, gate)
+		sc.Dev.Start = "gate"
+		sc.Class += "/platform"
 	}
 	sc.Ops = append(sc.Ops, OpSpec{Kind: "close"})
 	sc.F.DropAfterEOF = r.IntN(2) == 0
@@ -131,7 +144,40 @@ func runC06(env *Env, s Scenario) {
 
 		return
 	}
-	if sr.OpenRec.Err != nil || sr.OpenRec.Panicked {
+	if sr.OpenRec.Panicked {
+		return
+	}
+	lossDuringOpen := false
+	if faulted && fired && sc.PlatLogin != "" {
+		// the on-open sequence is an exchange: a failed write among Open's writes, or a read loss
+		// before everything the device said during Open was delivered, is a loss during open
+		k := sc.F.EOFAt
+		if sc.F.ErrAt > k {
+			k = sc.F.ErrAt
+		}
+		lossDuringOpen = (sc.F.WriteErrAt >= 0 && sc.F.WriteErrAt < sr.OpenRec.WritesAtEnd) || (k >= 0 && k < sr.OpenRec.EmittedAtEnd) || sr.OpenRec.Err != nil
+	}
+	if lossDuringOpen {
+		// C06 "during open": the exchange of the on-open sequence was cut
+		env.Probe("loss-during-open")
+		if sr.OpenRec.Err != nil {
+			return
+		}
+		upto := sr.OpenRec.EmittedAtEnd
+		if upto > len(sr.Tr.Out()) {
+			upto = len(sr.Tr.Out())
+		}
+		k := sc.F.EOFAt
+		if sc.F.ErrAt > k {
+			k = sc.F.ErrAt
+		}
+		if sc.F.WriteErrAt >= 0 || k > upto || strings.TrimSpace(string(sr.Tr.Out()[k:upto])) != "" {
+			env.Fail("open-succeeds-after-loss", "", "the connection was lost during the on-open exchange but Open returned success")
+
+			return
+		}
+		// only white space behind the last prompt was cut off: Open had all it needed
+	} else if sr.OpenRec.Err != nil {
 		env.Fail("open-error", "", "Open failed: %v", sr.OpenRec.Err)
 
 		return
